@@ -296,9 +296,12 @@ CLAIMED['C05'] = dict(
          'properties, SpawnObjectPacket, CombatEventPacket with its three events, FacePlayerPacket, PluginResponsePacket, '
          'SoundEffect position/pitch, explosion records) are covered with every optional-field combination. User-defined '
          'packets: Packet.write_fields/read for a definition list of ANY length with abstract field types (for-loop invariant: '
-         'field j is handled j-th, once, with attribute j).',
-    note='Field types enter through their S2/S3 contracts (C02/C03) and the C04 inverse contracts, not their bodies; lists '
-         'inside hand-written packets are unrolled for lengths 0..2 only (longer: bounded); NBT opaque; floats as reals with '
+         'field j is handled j-th, once, with attribute j). Lists of ANY length inside hand-written packets (MapPacket.icons, '
+         'PlayerListItemPacket.actions for each action type, AddPlayerAction.properties): loop contracts on the writer\'s and the '
+         'reader\'s loop - the reader\'s arbitrary iteration is fed the bytes the writer\'s loop body (executed from its AST) emits for '
+         'an arbitrary element, must consume exactly those, append exactly one element, and that element must equal the original.',
+    note='Field types enter through their S2/S3 contracts (C02/C03) and the C04 inverse contracts, not their bodies; the '
+         'byte-level units unroll lists for lengths 0..2, the any-length units carry the induction; list counts < 2^31; NBT opaque; floats as reals with '
          'wire-representable Angle/FixedPoint/Pitch values; map offsets 0..127; SpawnObjectPacket.__repr__ only in the bounded '
          'part (its enum lookup formats the concrete protocol number); name_from_value/nbt_to_snbt through contracts. Bounded: '
          'byte-level round trips on the real code for a sixth of the supported versions (all in the thorough tier), generated '
